@@ -154,6 +154,15 @@ CHECKS = {
         "Bound: pool of 64 valid / invalid / truncated / lexer-error inputs; histories of length 2 (longer ones only through (F)). THREAD SCHEDULES ARE NOT EXPLORED - no engine here models Python interleavings; that quantifier is covered only via (F) under the assumption that concurrent reads of unmodified objects are safe in CPython. One concrete 4-thread run is a smoke test, not a verdict.",
         "DESIGN.md 3/C15",
     ),
+    "C02": (
+        "model_checking",
+        "CrossHair (z3) exhaustive exploration of C++-legal type trees x 11 declaration contexts printed by an independent inside-out printer, of ALL declarator token strings against a reference declarator parser, and of template-argument pairs (stream restoration, type/value classification), on the real parser",
+        "Every legal tree up to the depth bound in every context must decode to exactly the generator's tree and name; every token string the reference declarator parser accepts must yield its tree; "
+        "after every parse the swapped token stream is restored and type-ids are types. 'Confirmed over all paths' = the bounded space was exhausted.",
+        "Bound: depth <=2 (quick) / 3 (thorough) over 6 base types and 10 wrappers; token strings <=4 / 6 over 11 token kinds; 29 x 29 template-argument pairs. Member pointers are outside (documented TODO of the parser). "
+        "D20 (array / parenthesised type-ids as template arguments) and D22 (nested redundant parentheses) are known findings matched by class.",
+        "DESIGN.md 3/C02",
+    ),
 }
 
 NOT_YET = "no check landed yet in this build (planned engine and bounds: DESIGN.md section 3); not claimed until the check runs green"
